@@ -103,7 +103,7 @@ Fixpoint md_loop_abs (lex : text -> list tok) (ilt : bool) (src : text) (bs : li
   match evs with
   | [] => Ok []
   | (ev, rs) :: rest =>
-      do '(out, stack) <- md_event_step lex ilt src stack (char_index bs rs) ev;
+      do '(out, stack) <- md_event_step lex ilt src bs rs stack (char_index bs rs) ev;
       do r <- md_loop_abs lex ilt src bs rest stack;
       Ok (out ++ r)
   end.
@@ -118,7 +118,7 @@ Fixpoint md_loop_max (lex : text -> list tok) (ilt : bool) (src : text) (bs : li
   | [] => Ok []
   | (ev, rs) :: rest =>
       let tb' := Nat.max tb rs in
-      do '(out, stack) <- md_event_step lex ilt src stack (char_index bs tb') ev;
+      do '(out, stack) <- md_event_step lex ilt src bs rs stack (char_index bs tb') ev;
       do r <- md_loop_max lex ilt src bs rest tb' stack;
       Ok (out ++ r)
   end.
@@ -135,7 +135,7 @@ Proof.
   pose proof (Forall_inv Hbs) as Hrs. pose proof (Forall_inv_tail Hbs) as Hbs'. cbn [snd] in Hrs.
   cbn [md_loop md_loop_max]. destruct (md_advance_ok bs tb tc rs Hb Hrs) as [[tb' tc'] E]. rewrite E. cbn [bind].
   destruct (md_advance_spec _ _ _ _ _ _ Hc Hb E) as (H1 & H2 & H3). subst tb'. rewrite H2.
-  destruct (md_event_step lex ilt src stack (char_index bs (Nat.max tb rs)) ev) as [[out st]|]; cbn [bind]; [|reflexivity].
+  destruct (md_event_step lex ilt src bs rs stack (char_index bs (Nat.max tb rs)) ev) as [[out st]|]; cbn [bind]; [|reflexivity].
   rewrite (IH (Nat.max tb rs) (char_index bs (Nat.max tb rs)) st eq_refl H3 Hbs'). reflexivity.
 Qed.
 
@@ -152,7 +152,7 @@ Proof.
   cbn [md_loop md_loop_abs]. destruct (md_advance_ok bs tb tc rs Hb Hrs) as [[tb' tc'] E]. rewrite E. cbn [bind].
   destruct (md_advance_spec _ _ _ _ _ _ Hc Hb E) as (H1 & H2 & H3).
   subst tb'. replace (Nat.max tb rs) with rs in * by lia. rewrite H2.
-  destruct (md_event_step lex ilt src stack (char_index bs rs) ev) as [[out st]|]; cbn [bind]; [|reflexivity].
+  destruct (md_event_step lex ilt src bs rs stack (char_index bs rs) ev) as [[out st]|]; cbn [bind]; [|reflexivity].
   rewrite (IH rs (char_index bs rs) st eq_refl H3 Hs Hbs'). reflexivity.
 Qed.
 
@@ -193,28 +193,77 @@ Proof.
   - right. right. now apply Hlex.
 Qed.
 
+(* md_text never panics when the chunk lies inside the source, and pushes nothing, ONE Unlintable token over
+   exactly the chunk, or the lexer's tokens of exactly the chunk *)
+Lemma md_text_cases lex ilt (src : text) stack tc n : tc + n <= length src ->
+  exists out, md_text lex ilt src stack tc n = Ok out /\
+    (out = [] \/ out = [mktok (mkspan tc (tc + n)) K_UNLINTABLE] \/
+     out = map (tpush tc) (lex (slice src tc (tc + n)))).
+Proof.
+  intros Hb. unfold md_text, slice_chk, span_new_with_len, slice.
+  destruct (Nat.ltb_spec (tc + n) tc); [lia|]. destruct (Nat.ltb_spec (length src) (tc + n)); [lia|]. cbn [orb bind].
+  destruct stack as [|tag st]; [eexists; split; [reflexivity|right; right; reflexivity]|].
+  destruct tag; cbn [tag_is_prose];
+    try (eexists; split; [reflexivity|]; first [left; reflexivity|right; left; reflexivity|right; right; reflexivity]).
+  destruct ilt; cbn [negb]; eexists; (split; [reflexivity|]); first [right; left; reflexivity|right; right; reflexivity].
+Qed.
+
 (* C04_md_code_unlintable: Code / InlineMath / DisplayMath / Html / InlineHtml events, Text inside a
    code block, and (with ignore_link_title) Text directly inside a link only ever produce Unlintable;
    Text under any tag outside the prose list produces nothing *)
-Theorem md_code_unlintable lex ilt src stack tc ev out st :
-  md_event_step lex ilt src stack tc ev = Ok (out, st) ->
+Theorem md_code_unlintable lex ilt src bs rs stack tc ev out st :
+  md_event_step lex ilt src bs rs stack tc ev = Ok (out, st) ->
   (match ev with
    | ECodeLike _ | EHtml _ => True
-   | EText _ => match stack with
-                | TCodeBlock :: _ => True
-                | TLink :: _ => ilt = true
-                | _ => False
-                end
+   | EText _ _ => match stack with
+                  | TCodeBlock :: _ => True
+                  | TLink :: _ => ilt = true
+                  | _ => False
+                  end
    | _ => False
    end) ->
   forall tk, In tk out -> tkind tk = K_UNLINTABLE.
 Proof.
-  intros H Hev tk Hin. destruct ev; try contradiction; cbn in H.
+  intros H Hev tk Hin. destruct ev; try contradiction; cbn [md_event_step] in H.
   - inversion H; subst. destruct Hin as [<-|[]]. reflexivity.
-  - destruct stack as [|tag s']; [contradiction|]. destruct tag; try contradiction.
+  - destruct (md_chunk_len bs rs re n) as [cl|]; cbn [bind] in H; [|discriminate].
+    destruct (cl =? 0); [inversion H; subst; destruct Hin|].
+    destruct stack as [|tag s']; [contradiction|]. destruct tag; try contradiction.
     + subst ilt. cbn in H. inversion H; subst. destruct Hin as [<-|[]]. reflexivity.
     + cbn in H. inversion H; subst. destruct Hin as [<-|[]]. reflexivity.
   - inversion H; subst. destruct Hin as [<-|[]]. reflexivity.
+Qed.
+
+(* C04_md_text_clamped (F27 / FC04f fixed): a Text event whose source range [rs, re) lies on char
+   boundaries, handled at the true char offset of its range start, never panics; the chunk it claims is
+   at most the event's text length AND at most the number of chars its source range holds, so it ends
+   at or before the true char offset of range.end — inside the source whatever text pulldown-cmark
+   synthesised; what is pushed is nothing, one Unlintable token over exactly that chunk, or the lexer's
+   tokens of exactly that chunk of the source *)
+Theorem md_text_clamped lex ilt (src : text) rs re stack n :
+  Forall valid_char src -> rs <= re ->
+  is_boundary (encode src) rs = true -> is_boundary (encode src) re = true ->
+  let bs := encode src in
+  let tc := char_index bs rs in
+  exists cl out, md_event_step lex ilt src bs rs stack tc (EText n re) = Ok (out, stack) /    cl <= n /\ tc + cl <= char_index bs re /\ char_index bs re <= length src /    (out = [] \/
+     (0 < cl /\ out = [mktok (mkspan tc (tc + cl)) K_UNLINTABLE]) \/
+     (0 < cl /\ out = map (tpush tc) (lex (slice src tc (tc + cl))))).
+Proof.
+  intros Hv Hle Hbs Hbe bs tc. cbn [md_event_step]. unfold md_chunk_len.
+  rewrite str_slice_ok. fold bs. subst bs. rewrite Hbs, Hbe. destruct (Nat.leb_spec rs re); [|lia]. cbn [andb bind].
+  set (bs := encode src) in *.
+  pose proof (char_index_split bs rs re Hle) as Hsp.
+  destruct (utf8_index src re Hv Hbe) as (k & Hk & _ & Hik & _). fold bs in Hik.
+  set (cl := Nat.min n (count_chars (slice bs rs re))).
+  assert (Hcl1 : cl <= n) by (unfold cl; lia).
+  assert (Hcl2 : tc + cl <= char_index bs re) by (unfold cl, tc; lia).
+  assert (Hlen : char_index bs re <= length src) by lia.
+  destruct (Nat.eqb_spec cl 0) as [Hz|Hnz].
+  - exists cl, []. repeat split; try assumption. now left.
+  - assert (Hpos : 0 < cl) by lia.
+    destruct (md_text_cases lex ilt src stack tc cl ltac:(lia)) as (o & Ho & Hcases). rewrite Ho. cbn [bind].
+    exists cl, o. repeat split; try assumption.
+    destruct Hcases as [->|[->|->]]; [now left|right; left; now split|right; right; now split].
 Qed.
 
 Theorem md_nonprose_tag_silent lex ilt src tag stack tc n out :
